@@ -155,14 +155,16 @@ def Btf.readAll (s : Bytes) (n : Nat) : Nat → Btf → Except Err Bytes
       | .error e => .error e
       | .ok rest => .ok (out ++ rest)
 
-/-- `get_file(name)` followed by `read_to_end` -/
+/-- `get_file(name)` followed by `read_to_end`.  The fuel is adequate for ANY index (C08): every
+    non-empty read moves forward in the stream or uses up one offset, so `read_to_end` needs at most
+    `(offsets.length + 1) * (|s| + 1)` reads. -/
 def Reader.getFile (s : Bytes) (ix : Index) (name : Bytes) (n : Nat := 65536) : Except Err Bytes :=
   match ix.find name with
   | none => .error .missing
   | some fi =>
     match Btf.new P utf8 s fi.offsets with
     | .error e => .error e
-    | .ok b => Btf.readAll P utf8 s n (s.length + 2) b
+    | .ok b => Btf.readAll P utf8 s n ((fi.offsets.length + 1) * (s.length + 1) + 1) b
 
 def Reader.getSize (ix : Index) (name : Bytes) : Except Err Nat :=
   match ix.find name with
